@@ -81,9 +81,30 @@ class CNode(object):
     @property
     def end(self):
         if self._e is None:
+            raw = (self.d.get("range") or {}).get("end") or {}
             x = self._loc("end")
             off = x.get("offset")
-            self._e = -1 if off is None else off + x.get("tokLen", 0)
+            e = -1 if off is None else off + x.get("tokLen", 0)
+            if e >= 0 and "expansionLoc" in raw and x.get("isMacroArgExpansion") is None:
+                # function-like macro invocation: the expansion location covers only the macro name;
+                # extend to the matching parenthesis so that .src is the spelled invocation
+                t = self.tu.text
+                j = e
+                while j < len(t) and t[j] in " \t":
+                    j += 1
+                if j < len(t) and t[j] == "(" and t[off:e].isidentifier():
+                    depth = 0
+                    k = j
+                    while k < len(t):
+                        if t[k] == "(":
+                            depth += 1
+                        elif t[k] == ")":
+                            depth -= 1
+                            if depth == 0:
+                                e = k + 1
+                                break
+                        k += 1
+            self._e = e
         return self._e
 
     @property
